@@ -10,7 +10,7 @@ restore() { git -C /repo checkout -q -- . ; git -C /repo clean -fdq; }
 trap restore EXIT
 case "$P" in
   revert:*) git revert --no-commit "${P#revert:}" >/dev/null 2>&1 || { echo "revert failed" >&2; git revert --abort 2>/dev/null; exit 3; }; git reset -q ;; 
-  *) git apply "$P" || { echo "patch does not apply" >&2; exit 3; } ;;
+  *) git apply "$P" 2>/dev/null || git apply --3way "$P" >/dev/null 2>&1 && git reset -q || { echo "patch does not apply" >&2; exit 3; } ;;
 esac
 cd /verif
 "$@"
